@@ -62,6 +62,7 @@ class Contract:
         self.callables = {}
         self.sites = []            # (class name, clause name, expr): checked after each construction of that class
         self.site_stores = []      # (attribute, clause name, expr): checked after each store to that attribute
+        self.site_calls = []       # (callee text e.g. 't_args.append' or '_compute_type_variable_assignments', clause name, expr)
         self.global_invariants = []  # (name, expr): assumed at entry and re-assumed after every havoc (slice mode)
 
 
@@ -168,6 +169,8 @@ def _parse_clauses(body, c, sc, loop=None):
                 c.opts.setdefault(k, v)
         elif fn == 'site':
             c.sites.append((_s(a[0]), _s(a[1]), a[2]))
+        elif fn == 'site_call':
+            c.site_calls.append((_s(a[0]), _s(a[1]), a[2]))
         elif fn == 'site_store':
             c.site_stores.append((_s(a[0]), _s(a[1]), a[2]))
         elif fn == 'global_invariant':
